@@ -132,6 +132,8 @@ class FindersProfile(StoreProfile):
         for c in m.configs:
             if any(not m.has_path(t, c) for t in uf_types):
                 run.stats["gated_no_path_type"] += 1
+                if ">" in s:
+                    continue   # a selection ('>') over a superset is not a superset of the selection: not comparable
                 run.check(sets["P:" + c] <= sets["L:" + c], "C11.paths_vs_list",
                           {"search": s, "config": c, "only_paths": sorted(sets["P:" + c] - sets["L:" + c]), "gated": True})
                 continue
